@@ -129,7 +129,11 @@ func suffixOf(verb string, it mfItem) string {
 }
 
 // renderLayout is the trusted renderer from a specification layout to file text.
-func renderLayout(layout []mfStmt) string {
+func renderLayout(layout []mfStmt) string { return renderLayoutOpt(layout, false) }
+
+// renderLayoutOpt: with blankBeforeComments, commented lines inside blocks are set off by an empty line
+// (the layout people use for a group with its own explanation)
+func renderLayoutOpt(layout []mfStmt, blankBeforeComments bool) string {
 	var sb strings.Builder
 	for _, st := range layout {
 		if st.Form == "line" {
@@ -146,8 +150,11 @@ func renderLayout(layout []mfStmt) string {
 			sb.WriteString("// " + st.Bc + "\n")
 		}
 		sb.WriteString(st.Verb + " (\n")
-		for _, it := range st.Items {
+		for i, it := range st.Items {
 			if it.Cb != "" {
+				if blankBeforeComments && i > 0 {
+					sb.WriteString("\n")
+				}
 				for _, l := range strings.Split(it.Cb, "\n") {
 					sb.WriteString("\t// " + l + "\n")
 				}
@@ -838,10 +845,28 @@ func checkBulk(c *core.Case) ([]core.Violation, bool) {
 	if c.K == "bulkrec" {
 		exp.Separable, exp.Gov, exp.Kept = in.Separable, in.Gov, in.Kept
 	}
-	text := in.Text
-	if text == "" {
-		text = renderLayout(in.Layout)
+	if in.Text != "" {
+		return checkBulkText(c, in.Kind, in.Text, in.Op, exp.After, exp.Separable, exp.Gov, exp.Kept)
 	}
+	vs, nt := checkBulkText(c, in.Kind, renderLayout(in.Layout), in.Op, exp.After, exp.Separable, exp.Gov, exp.Kept)
+	if alt := renderLayoutOpt(in.Layout, true); alt != renderLayout(in.Layout) {
+		vs2, _ := checkBulkText(c, in.Kind, alt, in.Op, exp.After, exp.Separable, exp.Gov, exp.Kept)
+		vs = append(vs, vs2...)
+	}
+	return vs, nt
+}
+
+func checkBulkText(c *core.Case, kind, text string, op mfOp, after mfState, separable bool, gov string, keptRaw []json.RawMessage) ([]core.Violation, bool) {
+	in := struct {
+		Kind string
+		Op   mfOp
+	}{kind, op}
+	exp := struct {
+		After     mfState
+		Separable bool
+		Gov       string
+		Kept      []json.RawMessage
+	}{after, separable, gov, keptRaw}
 	f, err := parseMF(in.Kind, text)
 	if err != nil {
 		core.NoteDrift("bulk layout rejected by the parser: " + err.Error() + "\n" + text)
